@@ -4,8 +4,14 @@ import MdkVerif.Proofs.Welcome
 /-
   C16 — Invitations are idempotent, consent-gated and cannot disturb existing groups.
   Property theorems only (frame lemmas of the storage writes live in Proofs/Welcome.lean).
-  The model follows the code: `no_disturb` is FALSE of it (three witnesses), and a refused
-  `process_welcome` can leave a group row behind (one witness); what holds is `no_disturb_partial`.
+
+  State of the code (/repo 4010ddc + 0dcc511): a rumor without id is refused before any write; a rumor
+  whose id is already stored is recognised under ANY wrapper id and touches no group; a welcome that is
+  Accepted can be neither accepted again nor declined.  What is still FALSE of the code, and therefore
+  kept as defs with closed witnesses: `no_disturb` (a DIFFERENT rumor for a held group id — from a
+  foreign creator, or another genuine invitation delivered late — still overwrites the Active group's
+  record, and accepting it replaces the MLS state), `accept_record_full`, `refused_has_no_effect`
+  (only the store-limit refusals after the first write remain).
 -/
 namespace MdkVerif.Props.C16
 open MdkVerif MdkVerif.Store MdkVerif.Welcome
@@ -13,65 +19,143 @@ open MdkVerif MdkVerif.Store MdkVerif.Welcome
 abbrev IOp := MdkVerif.Welcome.Op
 abbrev irun := MdkVerif.Welcome.run
 
-/-! ## 1. idempotence per wrapper id -/
+/-- the invitation-relevant part of a client that no group operation may touch when nothing new arrived -/
+def sameGroups (c c' : Client) : Prop :=
+  c'.store.groups = c.store.groups ∧ c'.store.relays = c.store.relays ∧ c'.store.welcomes = c.store.welcomes ∧ c'.mls = c.mls
+
+/-! ## 0. the fresh path of `process_welcome` -/
+
+/-- a successful fresh processing leaves exactly: the dedup record, the stored welcome, the Pending record -/
+theorem processFresh_ok (c c1 : Client) (wr : Nat) (m : Invite) (rid : Nat) (w : Store.Welcome)
+    (h : processFresh c wr m rid = (c1, .welcome w)) :
+    w = welcomeOf m rid wr ∧ findPw c1.store wr = some (okPw wr rid) ∧ findWelcome c1.store rid = some w ∧
+    findGroup c1.store m.gid = some (pendingGroup m) ∧ c1.mls = c.mls := by
+  unfold processFresh at h
+  split at h
+  · cases h
+  · split at h
+    · cases h
+    · rename_i s1 hs1
+      split at h
+      · cases h
+      · rename_i s2 hs2
+        split at h
+        · cases h
+        · rename_i s4 hs4
+          cases h
+          obtain ⟨hg4, _, hpws, _, _, hfw⟩ := saveWelcome_frame _ _ _ hs4
+          refine ⟨rfl, ?_, ?_, ?_, rfl⟩
+          · simp only [findPw, hpws]
+            have := findPw_savePw s2 (okPw wr rid) wr
+            simpa [findPw, okPw] using this
+          · rw [hfw]; simp [welcomeOf]
+          · rw [findGroup_of_groups_eq _ _ hg4]
+            have : findGroup (savePw s2 (okPw wr rid)) m.gid = findGroup s2 m.gid := findGroup_of_groups_eq s2 _ rfl m.gid
+            rw [this, findGroup_of_groups_eq _ _ (replaceRelays_frame _ _ _ _ hs2).1, (saveGroup_frame _ _ _ hs1).1]
+            simp [pendingGroup]
+
+/-! ## 1. idempotence -/
 
 /-- **same_wrapper_idempotent.**  Once `process_welcome` has succeeded under a wrapper id, processing
-    ANY structurally valid rumor under that wrapper id again returns the very same welcome and changes
-    nothing at all — for every client state, invitation and backend. -/
+    ANY structurally valid rumor (with an id) under that wrapper id again returns the very same welcome and
+    changes nothing at all — for every client state, invitation and backend. -/
 theorem same_wrapper_idempotent (c c1 : Client) (wrapper : Nat) (m m' : Invite) (w : Store.Welcome)
-    (h : process c wrapper m = (c1, .welcome w)) (hm' : m'.shape ≠ 1) :
+    (h : process c wrapper m = (c1, .welcome w)) (hm' : m'.shape ≠ 1) (hr' : m'.rid.isSome = true) :
     process c1 wrapper m' = (c1, .welcome w) := by
+  obtain ⟨rid', hrid'⟩ := Option.isSome_iff_exists.mp hr'
+  -- it suffices that the wrapper's record is Processed and points at the stored welcome `w`
+  have key : ∀ (cc : Client) (p : PW) (id : Nat), findPw cc.store wrapper = some p → p.state ≠ 1 → p.welcomeId = some id →
+      findWelcome cc.store id = some w → process cc wrapper m' = (cc, .welcome w) := by
+    intro cc p id h1 h2 h3 h4
+    unfold process
+    simp [hm', hrid', h1, h2, h3, h4]
   unfold process at h
   split at h
   · cases h
   · split at h
-    · -- a processed-welcome record existed already: nothing was written
-      rename_i p hp
-      have key : ∀ mm : Invite, mm.shape ≠ 1 → process c wrapper mm = (c1, .welcome w) := by
-        intro mm hmm
-        unfold process
-        simp only [hmm, if_false, hp]
-        exact h
+    · cases h
+    · rename_i rid hrid
       split at h
-      · cases h
-      · split at h
-        · split at h
-          · have : c1 = c := by cases h; rfl
-            subst this; exact key m' hm'
-          · cases h
+      · rename_i p hp
+        split at h
         · cases h
-    · rename_i hp
-      split at h
-      · cases h
-      · split at h
-        · cases h
-        · rename_i s1 hs1
+        · rename_i hst
           split at h
-          · cases h
-          · rename_i s2 hs2
+          · rename_i id hid
             split at h
+            · rename_i w0 hw0
+              cases h
+              exact key _ p id hp hst hid hw0
             · cases h
-            · rename_i rid hrid
-              simp only at h
-              split at h
-              · cases h
-              · rename_i s4 hs4
-                have hc : c1 = { c with store := s4 } ∧ w = welcomeOf m rid wrapper := by
-                  cases h; exact ⟨rfl, rfl⟩
-                obtain ⟨hc1, hw⟩ := hc
-                subst hc1
-                obtain ⟨_, _, hpws, _, _, hfw⟩ := saveWelcome_frame _ _ _ hs4
-                have h1 : findPw s4 wrapper = some { wrapper := wrapper, welcomeId := some rid, processedAt := 0, state := 0, reason := none } := by
-                  simp [findPw, hpws]
-                  have := findPw_savePw s2 { wrapper := wrapper, welcomeId := some rid, processedAt := 0, state := 0, reason := none } wrapper
-                  simpa [findPw] using this
-                have h2 : findWelcome s4 rid = some (welcomeOf m rid wrapper) := by
-                  rw [hfw]; simp [welcomeOf]
-                unfold process
-                simp only [hm', if_false, h1, h2, hw]
-                simp
+          · cases h
+      · rename_i hp
+        split at h
+        · rename_i sw hsw
+          cases h
+          refine key _ (okPw wrapper rid) rid ?_ (by simp [okPw]) rfl ?_
+          · simpa [okPw] using findPw_savePw c.store (okPw wrapper rid) wrapper
+          · simpa [findWelcome, savePw] using hsw
+        · obtain ⟨hw, h1, h2, _, _⟩ := processFresh_ok c c1 wrapper m rid w h
+          exact key c1 (okPw wrapper rid) rid h1 (by simp [okPw]) rfl h2
+
+/-- **same_rumor_idempotent.**  A rumor whose id is already stored: `process_welcome` under ANY wrapper
+    id — known or new, whatever the content behind that id decodes to now — writes no group record, no
+    relay, no welcome and no MLS state; under a wrapper id not seen before it returns exactly the stored
+    welcome (whatever its state: Pending, Accepted, Declined) and doing it again changes nothing. -/
+theorem same_rumor_idempotent (c : Client) (wr rid : Nat) (m : Invite) (sw : Store.Welcome)
+    (hr : m.rid = some rid) (hs : findWelcome c.store rid = some sw) :
+    sameGroups c (process c wr m).1 ∧
+    (m.shape ≠ 1 → findPw c.store wr = none →
+      (process c wr m).2 = .welcome sw ∧ process (process c wr m).1 wr m = ((process c wr m).1, .welcome sw)) := by
+  have hsame : sameGroups c (process c wr m).1 := by
+    unfold process
+    split
+    · exact ⟨rfl, rfl, rfl, rfl⟩
+    · simp only [hr]
+      split
+      · split
+        · exact ⟨rfl, rfl, rfl, rfl⟩
+        · split
+          · split <;> exact ⟨rfl, rfl, rfl, rfl⟩
+          · exact ⟨rfl, rfl, rfl, rfl⟩
+      · simp only [hs]; exact ⟨rfl, rfl, rfl, rfl⟩
+  refine ⟨hsame, ?_⟩
+  intro hsh hpw
+  have h1 : process c wr m = ({ c with store := savePw c.store (okPw wr rid) }, .welcome sw) := by
+    unfold process; simp [hsh, hr, hpw, hs]
+  rw [h1]
+  refine ⟨rfl, ?_⟩
+  exact same_wrapper_idempotent c _ wr m m sw h1 hsh (by simp [hr])
+
+/-- **accepted_welcome_final.**  A welcome that is Accepted can be neither accepted again nor declined:
+    both calls are refused and change nothing. -/
+theorem accepted_welcome_final (c : Client) (m : Invite) (sw : Store.Welcome)
+    (hs : m.rid.bind (findWelcome c.store) = some sw) (ha : sw.state = 1) :
+    accept c m = (c, .err .welcome) ∧ decline c m = (c, .err .welcome) := by
+  constructor
+  · unfold accept; simp [hs, ha]
+  · unfold decline; simp [hs, ha]
 
 /-! ## 2. no Active group without consent -/
+
+theorem processFresh_keeps_inactive (c : Client) (wr rid : Nat) (m : Invite) (gid : Nat)
+    (h : NotActive c.store gid) : NotActive (processFresh c wr m rid).1.store gid := by
+  unfold processFresh
+  split
+  · exact notActive_of_groups_eq c.store _ rfl gid h
+  · split
+    · exact h
+    · rename_i s1 hs1
+      have h1 : NotActive s1 gid := notActive_saveGroup _ _ _ hs1 (by simp [pendingGroup]) gid h
+      split
+      · exact h1
+      · rename_i s2 hs2
+        have h2 : NotActive s2 gid := notActive_of_groups_eq _ _ (replaceRelays_frame _ _ _ _ hs2).1 gid h1
+        have h3 : NotActive (savePw s2 (okPw wr rid)) gid := notActive_of_groups_eq s2 _ rfl gid h2
+        split
+        · exact h3
+        · rename_i s4 hs4
+          exact notActive_of_groups_eq _ _ (saveWelcome_frame _ _ _ hs4).1 gid h3
 
 /-- one invitation op other than `accept` never turns a non-Active group Active -/
 theorem nonaccept_keeps_inactive (c : Client) (o : IOp) (ho : o.isAccept = false) (gid : Nat)
@@ -85,49 +169,36 @@ theorem nonaccept_keeps_inactive (c : Client) (o : IOp) (ho : o.isAccept = false
     split
     · exact h
     · split
+      · exact h
       · split
-        · exact h
-        · split
-          · split <;> exact h
-          · exact h
-      · split
-        · exact notActive_of_groups_eq c.store _ rfl gid h
         · split
           · exact h
-          · rename_i s1 hs1
-            have h1 : NotActive s1 gid := notActive_saveGroup _ _ _ hs1 (by simp [pendingGroup]) gid h
-            split
-            · exact h1
-            · rename_i s2 hs2
-              have h2 : NotActive s2 gid := notActive_of_groups_eq _ _ (replaceRelays_frame _ _ _ _ hs2).1 gid h1
-              split
-              · exact h2
-              · rename_i rid hrid
-                simp only
-                have h3 : NotActive (savePw s2 { wrapper := wr, welcomeId := some rid, processedAt := 0, state := 0, reason := none }) gid :=
-                  notActive_of_groups_eq s2 _ rfl gid h2
-                split
-                · exact h3
-                · rename_i s4 hs4
-                  exact notActive_of_groups_eq _ _ (saveWelcome_frame _ _ _ hs4).1 gid h3
+          · split
+            · split <;> exact h
+            · exact h
+        · split
+          · exact notActive_of_groups_eq c.store _ rfl gid h
+          · exact processFresh_keeps_inactive c wr _ m gid h
   | decline m =>
     simp only [apply]
     unfold decline
     split
     · exact h
     · split
-      · exact notActive_of_groups_eq c.store _ rfl gid h
+      · exact h
       · split
-        · exact h
-        · rename_i s1 hs1
-          have h1 : NotActive s1 gid := notActive_of_groups_eq _ _ (saveWelcome_frame _ _ _ hs1).1 gid h
-          split
-          · exact h1
-          · rename_i g hgf
+        · exact notActive_of_groups_eq c.store _ rfl gid h
+        · split
+          · exact h
+          · rename_i s1 hs1
+            have h1 : NotActive s1 gid := notActive_of_groups_eq _ _ (saveWelcome_frame _ _ _ hs1).1 gid h
             split
             · exact h1
-            · rename_i s2 hs2
-              exact notActive_saveGroup _ _ _ hs2 (by simp) gid h1
+            · rename_i g hgf
+              split
+              · exact h1
+              · rename_i s2 hs2
+                exact notActive_saveGroup _ _ _ hs2 (by simp) gid h1
 
 /-- **no_consent_no_active.**  For every history of received / re-received / failed / declined
     invitations (any wrapper ids, any contents, any order) that contains no `accept`, a group that was
@@ -147,11 +218,11 @@ example : ∀ o ∈ ([Welcome.Op.process 1 default, Welcome.Op.decline default, 
 
 /-- **accept_state.**  A successful `accept_welcome`: the client's MLS group of that id IS the
     invitation's (the inviter's post-commit token, epoch and member count — whatever was there before is
-    replaced), the stored welcome is Accepted, and the group record of that id (if any) is Active with the
-    self-update obligation pending. -/
+    replaced), the stored welcome (which was not Accepted before) is Accepted, and the group record of that
+    id (if any) is Active with the self-update obligation pending. -/
 theorem accept_state (c c' : Client) (m : Invite) (h : accept c m = (c', .done)) :
     alookup m.gid c'.mls = some { tok := m.tok, epoch := m.epoch, members := m.members } ∧
-    (∃ sw, m.rid.bind (findWelcome c.store) = some sw ∧ findWelcome c'.store sw.id = some { sw with state := 1 }) ∧
+    (∃ sw, m.rid.bind (findWelcome c.store) = some sw ∧ sw.state ≠ 1 ∧ findWelcome c'.store sw.id = some { sw with state := 1 }) ∧
     (∀ g, findGroup c.store m.gid = some g → g.gid = m.gid →
       findGroup c'.store m.gid = some { g with state := 0, selfUpd := 0 }) := by
   unfold accept at h
@@ -160,66 +231,52 @@ theorem accept_state (c c' : Client) (m : Invite) (h : accept c m = (c', .done))
   · rename_i sw hsw
     split at h
     · cases h
-    · simp only at h
+    · rename_i hna
       split at h
       · cases h
-      · rename_i s1 hs1
-        obtain ⟨hg1, _, _, _, _, hw1⟩ := saveWelcome_frame _ _ _ hs1
+      · simp only at h
         split at h
-        · rename_i hnone
-          cases h
-          refine ⟨by simp [alookup_ainsert], ⟨sw, hsw, by rw [hw1]; simp⟩, ?_⟩
-          intro g hg _
-          rw [findGroup_of_groups_eq _ _ hg1] at hnone; rw [hnone] at hg; cases hg
-        · rename_i g0 hg0
+        · cases h
+        · rename_i s1 hs1
+          obtain ⟨hg1, _, _, _, _, hw1⟩ := saveWelcome_frame _ _ _ hs1
           split at h
-          · cases h
-          · rename_i s2 hs2
-            obtain ⟨hf2, _, hwel2, _⟩ := saveGroup_frame _ _ _ hs2
+          · rename_i hnone
+            cases h
+            refine ⟨by simp [alookup_ainsert], ⟨sw, hsw, hna, by rw [hw1]; simp⟩, ?_⟩
+            intro g hg _
+            rw [findGroup_of_groups_eq _ _ hg1] at hnone; rw [hnone] at hg; cases hg
+          · rename_i g0 hg0
             split at h
             · cases h
-            · rename_i s3 hs3
-              obtain ⟨hg3, hwel3, _⟩ := replaceRelays_frame _ _ _ _ hs3
-              cases h
-              refine ⟨by simp [alookup_ainsert], ⟨sw, hsw, ?_⟩, ?_⟩
-              · simp only [findWelcome, hwel3, hwel2]
-                have := hw1 sw.id; simpa [findWelcome] using this
-              · intro g hg hgid
-                rw [findGroup_of_groups_eq _ _ hg1] at hg0
-                rw [hg0] at hg; cases hg
-                rw [findGroup_of_groups_eq _ _ hg3, hf2]
-                simp [hgid]
+            · rename_i s2 hs2
+              obtain ⟨hf2, _, hwel2, _⟩ := saveGroup_frame _ _ _ hs2
+              split at h
+              · cases h
+              · rename_i s3 hs3
+                obtain ⟨hg3, hwel3, _⟩ := replaceRelays_frame _ _ _ _ hs3
+                cases h
+                refine ⟨by simp [alookup_ainsert], ⟨sw, hsw, hna, ?_⟩, ?_⟩
+                · simp only [findWelcome, hwel3, hwel2]
+                  have := hw1 sw.id; simpa [findWelcome] using this
+                · intro g hg hgid
+                  rw [findGroup_of_groups_eq _ _ hg1] at hg0
+                  rw [hg0] at hg; cases hg
+                  rw [findGroup_of_groups_eq _ _ hg3, hf2]
+                  simp [hgid]
 
-/-- received (first time under this wrapper id) and then accepted: the record is exactly the
-    invitation's group data, Active, self-update Required, at the invitation's epoch -/
-theorem accept_after_process (c c1 c2 : Client) (wr : Nat) (m : Invite) (w : Store.Welcome)
-    (hfresh : findPw c.store wr = none) (hp : process c wr m = (c1, .welcome w)) (ha : accept c1 m = (c2, .done)) :
+/-- received for the first time (neither the wrapper id nor the rumor id known) and then accepted: the
+    record is exactly the invitation's group data, Active, self-update Required, at the invitation's epoch -/
+theorem accept_after_process (c c1 c2 : Client) (wr rid : Nat) (m : Invite) (w : Store.Welcome)
+    (hrid : m.rid = some rid) (hfresh : findPw c.store wr = none) (hnew : findWelcome c.store rid = none)
+    (hp : process c wr m = (c1, .welcome w)) (ha : accept c1 m = (c2, .done)) :
     findGroup c2.store m.gid = some { pendingGroup m with state := 0 } ∧
     alookup m.gid c2.mls = some { tok := m.tok, epoch := m.epoch, members := m.members } := by
   have hrec : findGroup c1.store m.gid = some (pendingGroup m) := by
     unfold process at hp
     split at hp
     · cases hp
-    · rw [hfresh] at hp
-      simp only at hp
-      split at hp
-      · cases hp
-      · split at hp
-        · cases hp
-        · rename_i s1 hs1
-          split at hp
-          · cases hp
-          · rename_i s2 hs2
-            split at hp
-            · cases hp
-            · split at hp
-              · cases hp
-              · rename_i s4 hs4
-                cases hp
-                rw [findGroup_of_groups_eq _ _ (saveWelcome_frame _ _ _ hs4).1]
-                have : ∀ p, findGroup (savePw s2 p) m.gid = findGroup s2 m.gid := fun p => findGroup_of_groups_eq s2 _ rfl m.gid
-                rw [this, findGroup_of_groups_eq _ _ (replaceRelays_frame _ _ _ _ hs2).1, (saveGroup_frame _ _ _ hs1).1]
-                simp [pendingGroup]
+    · simp only [hrid, hfresh, hnew] at hp
+      exact (processFresh_ok c c1 wr m rid w hp).2.2.2.1
   obtain ⟨h1, _, h3⟩ := accept_state c1 c2 m ha
   exact ⟨by simpa [pendingGroup] using h3 _ hrec rfl, h1⟩
 
@@ -230,13 +287,46 @@ theorem accept_after_process (c c1 c2 : Client) (wr : Nat) (m : Invite) (w : Sto
 def no_disturb : Prop :=
   ∀ (c : Client) (o : IOp) (gid : Nat), isActive c gid = true → proj (apply c o).1 gid = proj c gid
 
-/-- **no_disturb_partial.**  What holds of the code: an invitation operation can only touch the group
-    whose MLS group id the invitation names.  Every OTHER group — Active or not — keeps its record, its
-    MLS state and its relays, for every client state, operation, invitation content and backend. -/
+theorem proj_of_sameGroups (c c' : Client) (h : sameGroups c c') (gid : Nat) : proj c' gid = proj c gid := by
+  obtain ⟨h1, h2, _, h4⟩ := h
+  simp [proj, findGroup, h1, h2, h4]
+
+theorem processFresh_other (c : Client) (wr rid : Nat) (m : Invite) (gid : Nat) (hne : gid ≠ m.gid) :
+    proj (processFresh c wr m rid).1 gid = proj c gid := by
+  have hne' : ¬ m.gid = gid := fun e => hne e.symm
+  have pj : ∀ (c1 c2 : Client), findGroup c2.store gid = findGroup c1.store gid →
+      alookup gid c2.store.relays = alookup gid c1.store.relays → alookup gid c2.mls = alookup gid c1.mls →
+      proj c2 gid = proj c1 gid := by
+    intro c1 c2 h1 h2 h3; simp [proj, h1, h2, h3]
+  unfold processFresh
+  split
+  · exact pj _ _ rfl rfl rfl
+  · split
+    · rfl
+    · rename_i s1 hs1
+      obtain ⟨f1, r1, _⟩ := saveGroup_frame _ _ _ hs1
+      have a1 : findGroup s1 gid = findGroup c.store gid := by rw [f1]; simp [pendingGroup, hne']
+      have b1 : alookup gid s1.relays = alookup gid c.store.relays := by rw [r1]
+      split
+      · exact pj _ _ a1 b1 rfl
+      · rename_i s2 hs2
+        obtain ⟨g2, _, _, _, _, r2⟩ := replaceRelays_frame _ _ _ _ hs2
+        have a2 : findGroup s2 gid = findGroup c.store gid := (findGroup_of_groups_eq _ _ g2 gid).trans a1
+        have b2 : alookup gid s2.relays = alookup gid c.store.relays := (r2 gid hne).trans b1
+        split
+        · exact pj _ _ (by simpa [findGroup, savePw] using a2) (by simpa [savePw] using b2) rfl
+        · rename_i s4 hs4
+          obtain ⟨g4, r4, _⟩ := saveWelcome_frame _ _ _ hs4
+          refine pj _ _ ?_ ?_ rfl
+          · rw [findGroup_of_groups_eq _ _ g4]; simpa [findGroup, savePw] using a2
+          · rw [r4]; simpa [savePw] using b2
+
+/-- **no_disturb_partial.**  An invitation operation can only touch the group whose MLS group id the
+    invitation names.  Every OTHER group — Active or not — keeps its record, its MLS state and its relays,
+    for every client state, operation, invitation content and backend. -/
 theorem no_disturb_partial (c : Client) (o : IOp) (gid : Nat) (hne : gid ≠ o.invite.gid) :
     proj (apply c o).1 gid = proj c gid := by
   have hne' : ¬ o.invite.gid = gid := fun e => hne e.symm
-  -- the three projections after each kind of write
   have sg : ∀ (s s' : Store) (g : Group), g.gid = o.invite.gid → saveGroup s g = some s' →
       findGroup s' gid = findGroup s gid ∧ alookup gid s'.relays = alookup gid s.relays := by
     intro s s' g hg h
@@ -258,35 +348,22 @@ theorem no_disturb_partial (c : Client) (o : IOp) (gid : Nat) (hne : gid ≠ o.i
     intro c1 c2 h1 h2 h3; simp [proj, h1, h2, h3]
   cases o with
   | process wr m =>
-    simp only [Op.invite] at hne hne' sg rr
+    simp only [Op.invite] at hne
     simp only [apply]
     unfold process
     split
     · rfl
     · split
+      · rfl
       · split
-        · rfl
-        · split
-          · split <;> rfl
-          · rfl
-      · split
-        · exact pj _ _ rfl rfl rfl
         · split
           · rfl
-          · rename_i s1 hs1
-            obtain ⟨a1, b1⟩ := sg _ _ _ rfl hs1
-            split
-            · exact pj _ _ a1 b1 rfl
-            · rename_i s2 hs2
-              obtain ⟨a2, b2⟩ := rr _ _ _ hs2
-              split
-              · exact pj _ _ (a2.trans a1) (b2.trans b1) rfl
-              · simp only
-                split
-                · exact pj _ _ (a2.trans a1) (b2.trans b1) rfl
-                · rename_i s4 hs4
-                  obtain ⟨a4, b4⟩ := sw _ _ _ hs4
-                  exact pj _ _ (a4.trans (a2.trans a1)) (b4.trans (b2.trans b1)) rfl
+          · split
+            · split <;> rfl
+            · rfl
+        · split
+          · exact pj _ _ rfl rfl rfl
+          · exact processFresh_other c wr _ m gid hne
   | accept m =>
     simp only [Op.invite] at hne hne' sg rr
     simp only [apply]
@@ -296,26 +373,28 @@ theorem no_disturb_partial (c : Client) (o : IOp) (gid : Nat) (hne : gid ≠ o.i
     split
     · rfl
     · split
-      · exact pj _ _ rfl rfl rfl
-      · simp only
-        split
-        · exact pj _ _ rfl rfl hm
-        · rename_i s1 hs1
-          obtain ⟨a1, b1⟩ := sw _ _ _ hs1
+      · rfl
+      · split
+        · exact pj _ _ rfl rfl rfl
+        · simp only
           split
-          · exact pj _ _ a1 b1 hm
-          · rename_i g hg
-            have hgid : g.gid = m.gid := by
-              have := List.find?_some hg; simpa using this
+          · exact pj _ _ rfl rfl hm
+          · rename_i s1 hs1
+            obtain ⟨a1, b1⟩ := sw _ _ _ hs1
             split
             · exact pj _ _ a1 b1 hm
-            · rename_i s2 hs2
-              obtain ⟨a2, b2⟩ := sg _ _ { g with state := 0, selfUpd := 0 } hgid hs2
+            · rename_i g hg
+              have hgid : g.gid = m.gid := by
+                have := List.find?_some hg; simpa using this
               split
-              · exact pj _ _ (a2.trans a1) (b2.trans b1) hm
-              · rename_i s3 hs3
-                obtain ⟨a3, b3⟩ := rr _ _ _ hs3
-                exact pj _ _ (a3.trans (a2.trans a1)) (b3.trans (b2.trans b1)) hm
+              · exact pj _ _ a1 b1 hm
+              · rename_i s2 hs2
+                obtain ⟨a2, b2⟩ := sg _ _ { g with state := 0, selfUpd := 0 } hgid hs2
+                split
+                · exact pj _ _ (a2.trans a1) (b2.trans b1) hm
+                · rename_i s3 hs3
+                  obtain ⟨a3, b3⟩ := rr _ _ _ hs3
+                  exact pj _ _ (a3.trans (a2.trans a1)) (b3.trans (b2.trans b1)) hm
   | decline m =>
     simp only [Op.invite] at hne hne' sg rr
     simp only [apply]
@@ -323,30 +402,143 @@ theorem no_disturb_partial (c : Client) (o : IOp) (gid : Nat) (hne : gid ≠ o.i
     split
     · rfl
     · split
-      · exact pj _ _ rfl rfl rfl
+      · rfl
       · split
-        · rfl
-        · rename_i s1 hs1
-          obtain ⟨a1, b1⟩ := sw _ _ _ hs1
-          split
-          · exact pj _ _ a1 b1 rfl
-          · rename_i g hg
-            have hgid : g.gid = m.gid := by
-              have := List.find?_some hg; simpa using this
+        · exact pj _ _ rfl rfl rfl
+        · split
+          · rfl
+          · rename_i s1 hs1
+            obtain ⟨a1, b1⟩ := sw _ _ _ hs1
             split
             · exact pj _ _ a1 b1 rfl
-            · rename_i s2 hs2
-              obtain ⟨a2, b2⟩ := sg _ _ { g with state := 1 } hgid hs2
-              exact pj _ _ (a2.trans a1) (b2.trans b1) rfl
+            · rename_i g hg
+              have hgid : g.gid = m.gid := by
+                have := List.find?_some hg; simpa using this
+              split
+              · exact pj _ _ a1 b1 rfl
+              · rename_i s2 hs2
+                obtain ⟨a2, b2⟩ := sg _ _ { g with state := 1 } hgid hs2
+                exact pj _ _ (a2.trans a1) (b2.trans b1) rfl
 
-/-- … hence `no_disturb` holds whenever the client holds no Active group with the invitation's id (the
-    decidable hypothesis under which the property is true of the code) -/
-theorem no_disturb_when_not_held (c : Client) (o : IOp) (hH : isActive c o.invite.gid = false) (gid : Nat)
+/-- the exact hypothesis under which an invitation operation is harmless: it names a group id the user
+    does not hold Active, OR (for `process`) its rumor id is already stored, OR (for `accept` / `decline`)
+    the stored welcome is already Accepted -/
+def harmless (c : Client) : IOp → Prop
+  | .process _ m => isActive c m.gid = false ∨ ∃ rid sw, m.rid = some rid ∧ findWelcome c.store rid = some sw
+  | .accept m => isActive c m.gid = false ∨ ∃ sw, m.rid.bind (findWelcome c.store) = some sw ∧ sw.state = 1
+  | .decline m => isActive c m.gid = false ∨ ∃ sw, m.rid.bind (findWelcome c.store) = some sw ∧ sw.state = 1
+
+/-- **no_disturb_when_harmless.**  `no_disturb` holds for every invitation operation that satisfies
+    `harmless` — in particular for EVERY replay of a rumor the client has stored (any wrapper id, any
+    state of the group), for every second accept / late decline of an Accepted welcome, and for every
+    invitation to a group the user is not Active in. -/
+theorem no_disturb_when_harmless (c : Client) (o : IOp) (hH : harmless c o) (gid : Nat)
     (ha : isActive c gid = true) : proj (apply c o).1 gid = proj c gid := by
-  apply no_disturb_partial
-  intro e; rw [e, hH] at ha; cases ha
+  have other : isActive c o.invite.gid = false → proj (apply c o).1 gid = proj c gid := by
+    intro hna
+    apply no_disturb_partial
+    intro e; rw [e, hna] at ha; cases ha
+  cases o with
+  | process wr m =>
+    rcases hH with h | ⟨rid, sw, hr, hs⟩
+    · exact other h
+    · exact proj_of_sameGroups _ _ (same_rumor_idempotent c wr rid m sw hr hs).1 gid
+  | accept m =>
+    rcases hH with h | ⟨sw, hs, hst⟩
+    · exact other h
+    · simp only [apply, (accepted_welcome_final c m sw hs hst).1]
+  | decline m =>
+    rcases hH with h | ⟨sw, hs, hst⟩
+    · exact other h
+    · simp only [apply, (accepted_welcome_final c m sw hs hst).2]
 
-/-! ## 5. witnesses: `no_disturb` is false of the code, and a refused invitation has an effect
+/-! ## 5. refusals -/
+
+/-- the full-strength "a refused invitation has no effect on any group" -/
+def refused_has_no_effect : Prop :=
+  ∀ (c : Client) (wr : Nat) (m : Invite) (k : ErrK) (gid : Nat),
+    (process c wr m).2 = .err k → proj (process c wr m).1 gid = proj c gid
+
+/-- **refused_process_no_effect.**  Every refusal of `process_welcome` leaves every group untouched —
+    invalid structure, missing rumor id (now checked first), known wrapper id, failing preview (which only
+    adds its Failed dedup record) — provided the store does not refuse one of the writes AFTER the group
+    record was saved (`hlim`: relay / welcome limits of the memory backend; see the next witness). -/
+theorem refused_process_no_effect (c : Client) (wr : Nat) (m : Invite) (k : ErrK) (gid : Nat)
+    (hlim : ∀ s1, saveGroup c.store (pendingGroup m) = some s1 →
+      ∃ s2, replaceRelays s1 m.gid m.relays = some s2 ∧
+        ∀ rid, (saveWelcome (savePw s2 (okPw wr rid)) (welcomeOf m rid wr)).isSome = true)
+    (h : (process c wr m).2 = .err k) : proj (process c wr m).1 gid = proj c gid := by
+  have pj : ∀ (p : PW), proj { c with store := savePw c.store p } gid = proj c gid := by
+    intro p; simp [proj, findGroup, savePw]
+  by_cases h1 : m.shape = 1
+  · simp [process, h1]
+  cases hrid : m.rid with
+  | none => simp [process, h1, hrid]
+  | some rid =>
+    cases hpw : findPw c.store wr with
+    | some p =>
+      have : (process c wr m).1 = c := by
+        unfold process
+        simp only [h1, hrid, hpw, if_false]
+        split
+        · rfl
+        · split
+          · split <;> rfl
+          · rfl
+      rw [this]
+    | none =>
+      cases hnw : findWelcome c.store rid with
+      | some sw =>
+        have : process c wr m = ({ c with store := savePw c.store (okPw wr rid) }, .welcome sw) := by
+          unfold process; simp [h1, hrid, hpw, hnw]
+        rw [this]; exact pj _
+      | none =>
+        have hp : process c wr m = processFresh c wr m rid := by
+          unfold process; simp [h1, hrid, hpw, hnw]
+        rw [hp] at h ⊢
+        unfold processFresh at h ⊢
+        by_cases h2 : m.shape = 2
+        · simp only [h2, if_true]; exact pj _
+        · simp only [h2, if_false] at h ⊢
+          cases hs1 : saveGroup c.store (pendingGroup m) with
+          | none => simp
+          | some s1 =>
+            obtain ⟨s2, hr2, hw⟩ := hlim s1 hs1
+            simp only [hs1, hr2] at h ⊢
+            have hw' := hw rid
+            cases hsw : saveWelcome (savePw s2 (okPw wr rid)) (welcomeOf m rid wr) with
+            | none => rw [hsw] at hw'; cases hw'
+            | some s4 => simp [hsw] at h
+
+/-- the hypothesis is the ordinary case: for an invitation within the store limits all four writes go through -/
+example : ∃ s1 s2, saveGroup (Client.empty .mem).store (pendingGroup (default : Invite)) = some s1 ∧
+    replaceRelays s1 (default : Invite).gid [1, 2] = some s2 ∧
+    (saveWelcome (savePw s2 (okPw 1 0)) (welcomeOf default 0 1)).isSome = true := ⟨_, _, rfl, rfl, rfl⟩
+
+/-- … `refused_has_no_effect` in full is still false, by a store limit only: on the memory backend a
+    welcome naming more relays than the store accepts is refused by `replace_group_relays` AFTER
+    `save_group` wrote the Pending record.  (Model-level witness resting on the store model validated for
+    C10; the harness does not generate 101-relay groups.) -/
+theorem refused_store_limit_effect :
+    let m : Invite := { (default : Invite) with rid := some 0, gid := 1, nid := 101, relays := List.range 101 }
+    (process (Client.empty .mem) 7 m).2 = .err .group ∧
+    findGroup (process (Client.empty .mem) 7 m).1.store 1 = some (pendingGroup m) := by
+  decide
+
+theorem refused_has_no_effect_false : ¬ refused_has_no_effect := by
+  intro h
+  have := h (Client.empty .mem) 7 { (default : Invite) with rid := some 0, gid := 1, nid := 101, relays := List.range 101 } .group 1 (by decide)
+  revert this; decide
+
+/-- the id-less rumor is now refused before anything is written (was `welcome-row-before-reject`) -/
+theorem missing_id_no_effect (c : Client) (wr : Nat) (m : Invite) (h : m.rid = none) :
+    (process c wr m).1 = c := by
+  unfold process
+  split
+  · rfl
+  · simp [h]
+
+/-! ## 6. witnesses: what the repair fixed, and what is still false of the code
     (each history is in `corpus/C16/` and replayed on the implementation on every run) -/
 
 /-- an invitation to group 1: inviter's post-commit state token 0 at epoch 1, two members -/
@@ -364,111 +556,65 @@ def cJoined (b : Backend) : Client :=
   let c2 := (accept c1 wInv).1
   (applyCommit c2 wCommit).getD c2
 
-/-- the starting point of the three witnesses is what it should be: Active, at epoch 2, in MLS state 1,
-    able to decrypt what the group sends now -/
 theorem cJoined_ok (b : Backend) :
     isActive (cJoined b) 1 = true ∧ ((findGroup (cJoined b).store 1).map (·.epoch)) = some 2 ∧
     alookup 1 (cJoined b).mls = some { tok := 1, epoch := 2, members := 2 } ∧ canDecrypt (cJoined b) 1 101 1 = true := by
   cases b <;> decide
 
-/-- **C16_witness_replay_pending.**  The SAME welcome delivered under a NEW wrapper id (11) to the Active
-    member: `process_welcome` succeeds and overwrites the Active group's record with state Pending and the
-    invitation's old epoch. -/
-theorem C16_witness_replay_pending (b : Backend) :
-    let c' := (apply (cJoined b) (.process 11 wInv)).1
-    findGroup c'.store 1 = some (pendingGroup wInv) ∧ isActive c' 1 = false ∧
-    (pendingGroup wInv).state = 2 ∧ (pendingGroup wInv).epoch = 1 := by
-  cases b <;> decide
-
-/-- **C16_witness_replay_accept.**  Accepting the replayed welcome replaces the member's MLS state
-    (token 1, epoch 2) by the invitation's (token 0, epoch 1): the record says Active again, but the client
-    can no longer decrypt the group. -/
-theorem C16_witness_replay_accept (b : Backend) :
+/-- the three former witnesses are regression facts now: the SAME welcome under a new wrapper id (11)
+    leaves the Active member's group as it is; accepting or declining it afterwards is refused -/
+theorem replay_fixed (b : Backend) :
     let c1 := (apply (cJoined b) (.process 11 wInv)).1
-    let c2 := (apply c1 (.accept wInv)).1
-    isActive c2 1 = true ∧ alookup 1 c2.mls = some { tok := 0, epoch := 1, members := 2 } ∧
-    canDecrypt c2 1 101 1 = false := by
+    proj c1 1 = proj (cJoined b) 1 ∧
+    (apply c1 (.accept wInv)).2 = .err .welcome ∧ proj (apply c1 (.accept wInv)).1 1 = proj (cJoined b) 1 ∧
+    (apply c1 (.decline wInv)).2 = .err .welcome ∧ proj (apply c1 (.decline wInv)).1 1 = proj (cJoined b) 1 ∧
+    canDecrypt (apply c1 (.accept wInv)).1 1 101 1 = true := by
   cases b <;> decide
 
-/-- **C16_witness_replay_decline.**  Declining the replayed welcome instead sets the group Inactive. -/
-theorem C16_witness_replay_decline (b : Backend) :
-    let c1 := (apply (cJoined b) (.process 11 wInv)).1
-    let c2 := (apply c1 (.decline wInv)).1
-    ((findGroup c2.store 1).map (·.state)) = some 1 ∧ isActive c2 1 = false := by
-  cases b <;> decide
-
-/-- **C16_witness_foreign_creator.**  Somebody who is NOT in the group but knows its MLS group id creates
-    a new MLS group with that id (own group data: nostr group id 777, another name) and invites the
-    member.  Merely PROCESSING that welcome — no consent — overwrites the Active group's record with the
-    foreign group data: the real group's events are no longer routed to it (`canDecrypt` false although
-    the MLS state is intact).  Accepting it replaces the MLS state by the foreign group's. -/
+/-- **C16_witness_foreign_creator** (OPEN).  Somebody who is NOT in the group but knows its MLS group id
+    creates a new MLS group with that id (own group data: nostr group id 777, another name) and invites the
+    member.  It is a DIFFERENT rumor, so neither dedup applies: merely PROCESSING it — no consent —
+    overwrites the Active group's record with the foreign group data, and the real group's events are no
+    longer routed to it (`canDecrypt` false although the MLS state is intact).  Accepting it replaces the
+    MLS state by the foreign group's; declining it leaves the group Inactive. -/
 theorem C16_witness_foreign_creator (b : Backend) :
     let forged : Invite := { wInv with rid := some 9, nid := 777, nameLen := 9, tok := 50, welcomer := 2 }
     let c1 := (apply (cJoined b) (.process 30 forged)).1
     let c2 := (apply c1 (.accept forged)).1
+    let c3 := (apply c1 (.decline forged)).1
     (apply (cJoined b) (.process 30 forged)).2 = .welcome (welcomeOf forged 9 30) ∧
     ((findGroup c1.store 1).map (fun g => (g.state, g.nid, g.nameLen))) = some (2, 777, 9) ∧
     alookup 1 c1.mls = some { tok := 1, epoch := 2, members := 2 } ∧ canDecrypt c1 1 101 1 = false ∧
-    isActive c2 1 = true ∧ alookup 1 c2.mls = some { tok := 50, epoch := 1, members := 2 } := by
+    isActive c2 1 = true ∧ alookup 1 c2.mls = some { tok := 50, epoch := 1, members := 2 } ∧
+    ((findGroup c3.store 1).map (·.state)) = some 1 := by
+  cases b <;> decide
+
+/-- **C16_witness_other_invitation** (OPEN).  ANOTHER genuine invitation to the same group — here an
+    older one (rumor 3, epoch 0 state 7) that is delivered only after the member joined through rumor 0 and
+    the group moved on — is not a replay either: processing it resets the Active group to Pending at the
+    old epoch, and accepting it replaces the current MLS state by the stale one. -/
+theorem C16_witness_other_invitation (b : Backend) :
+    let older : Invite := { wInv with rid := some 3, epoch := 0, tok := 7 }
+    let c1 := (apply (cJoined b) (.process 40 older)).1
+    let c2 := (apply c1 (.accept older)).1
+    ((findGroup c1.store 1).map (fun g => (g.state, g.epoch))) = some (2, 0) ∧
+    alookup 1 c2.mls = some { tok := 7, epoch := 0, members := 2 } ∧ canDecrypt c2 1 101 1 = false := by
   cases b <;> decide
 
 /-- the full-strength statement is false of the code -/
 theorem no_disturb_false : ¬ no_disturb := by
   intro h
-  have := h (cJoined .sql) (.process 11 wInv) 1 (by decide)
+  have := h (cJoined .sql) (.process 30 { wInv with rid := some 9, nid := 777, nameLen := 9, tok := 50, welcomer := 2 }) 1 (by decide)
   revert this; decide
 
-/-- the full-strength "a refused invitation has no effect" … -/
-def refused_has_no_effect : Prop :=
-  ∀ (c : Client) (wr : Nat) (m : Invite) (k : ErrK) (gid : Nat),
-    (process c wr m).2 = .err k → proj (process c wr m).1 gid = proj c gid
-
-/-- **refused_welcome_effect.**  … is false too: a rumor without an id is refused with
-    `MissingRumorEventId` AFTER the Pending group row and its relays were written; no welcome and no
-    processed-welcome record exist, so nothing will ever accept, decline or deduplicate it. -/
-theorem refused_welcome_effect (b : Backend) :
-    let r := process (Client.empty b) 7 { wInv with rid := none }
-    r.2 = .err .missingRumorId ∧ findGroup r.1.store 1 = some (pendingGroup wInv) ∧
-    alookup 1 r.1.store.relays = some [1, 2] ∧ r.1.store.welcomes = [] ∧ findPw r.1.store 7 = none := by
-  cases b <;> decide
-
-theorem refused_has_no_effect_false : ¬ refused_has_no_effect := by
+/-- the witnesses lie outside `harmless`, as they must -/
+example : ¬ harmless (cJoined .sql) (.process 30 { wInv with rid := some 9, nid := 777 }) := by
   intro h
-  have := h (Client.empty .sql) 7 { wInv with rid := none } .missingRumorId 1 (by decide)
-  revert this; decide
-
-/-- … and on an Active member it is one more way to disturb the group: the refused id-less replay
-    leaves the Active group Pending at the old epoch -/
-theorem refused_welcome_disturbs_active (b : Backend) :
-    let r := process (cJoined b) 12 { wInv with rid := none }
-    r.2 = .err .missingRumorId ∧ isActive r.1 1 = false := by
-  cases b <;> decide
-
-/-- what is refused BEFORE the first write has no effect: structurally invalid rumors and known wrapper ids -/
-theorem refused_early_no_effect (c : Client) (wr : Nat) (m : Invite)
-    (h : m.shape = 1 ∨ (findPw c.store wr).isSome) : (process c wr m).1 = c := by
-  unfold process
-  rcases h with h | h
-  · simp [h]
-  · split
-    · rfl
-    · cases hp : findPw c.store wr with
-      | none => simp [hp] at h
-      | some p =>
-        simp only
-        split
-        · rfl
-        · split
-          · split <;> rfl
-          · rfl
-
-/-- an invitation that fails in `preview_welcome` leaves exactly one trace: its Failed dedup record -/
-theorem failed_preview_only_records (c : Client) (wr : Nat) (m : Invite) (h1 : m.shape = 2)
-    (h2 : findPw c.store wr = none) (gid : Nat) :
-    (process c wr m).2 = .err .welcome ∧ proj (process c wr m).1 gid = proj c gid ∧
-    (process c wr m).1.store.welcomes = c.store.welcomes := by
-  unfold process
-  simp [h1, h2, proj, findGroup, savePw]
+  rcases h with h | ⟨rid, sw, hr, hs⟩
+  · revert h; decide
+  · cases hr
+    have : findWelcome (cJoined .sql).store 9 = none := by decide
+    rw [this] at hs; cases hs
 
 /-- the full-strength reading of "accept puts the joiner in exactly the inviter's post-commit state" for
     the group RECORD: after a successful accept the record is at the accepted invitation's epoch … -/
@@ -476,11 +622,11 @@ def accept_record_full : Prop :=
   ∀ (c : Client) (m : Invite), (accept c m).2 = .done →
     ∀ g, findGroup (accept c m).1.store m.gid = some g → g.epoch = m.epoch
 
-/-- … is false: `accept_welcome` keeps whatever record is stored under that group id.  Two invitations to
-    the same group are pending (eviction and re-invitation before either was looked at); the newer one
-    (epoch 3) was processed last; accepting the older one (epoch 1) joins MLS state 0 at epoch 1 while the
-    record stays at epoch 3.  `accept_after_process` is the partial statement (no other invitation to that
-    group id processed in between).  Replayed by `corpus/C16/accept_older_invitation.trace`. -/
+/-- … is false (OPEN): `accept_welcome` keeps whatever record is stored under that group id.  Two
+    invitations to the same group are pending (eviction and re-invitation before either was looked at); the
+    newer one (epoch 3) was processed last; accepting the older one (epoch 1) joins MLS state 0 at epoch 1
+    while the record stays at epoch 3.  `accept_after_process` is the partial statement.
+    Replayed by `corpus/C16/accept_older_invitation.trace`. -/
 theorem accept_record_full_false : ¬ accept_record_full := by
   intro h
   let newer : Invite := { wInv with rid := some 1, epoch := 3, tok := 5 }
@@ -489,17 +635,18 @@ theorem accept_record_full_false : ¬ accept_record_full := by
   have := h c2 wInv (by decide) { pendingGroup newer with state := 0 } (by decide)
   revert this; decide
 
-/-! ## 6. the tie to the source -/
+/-! ## 7. the tie to the source -/
 
 /-- **welcome_step_order.**  The order of validation, storage and MLS steps the model transcribes is the
     order `tools/gen_model.py` extracts from `process_welcome` / `accept_welcome` / `decline_welcome` on
-    every run; the staged welcome is built with `.replace_old_group()`; and `process_welcome` does not look
-    for an Active group of that id before writing.  When the code is repaired (id check before the first
-    write, held-group check) these facts change and this theorem — and with it the witnesses — must be
-    revisited. -/
+    every run; the rumor-id dedup precedes preview and every group write; accept and decline refuse an
+    Accepted welcome before preview; the staged welcome is built with `.replace_old_group()`; and
+    `process_welcome` still does not look for an Active group of that id before writing (the open
+    findings).  A change of any of these facts breaks this theorem. -/
 theorem welcome_step_order :
     Welcome.processOrder = Generated.welcomeProcessOrder ∧ Welcome.acceptOrder = Generated.welcomeAcceptOrder ∧
-    Welcome.declineOrder = Generated.welcomeDeclineOrder ∧ Generated.welcomeReplacesOldGroup = true ∧
+    Welcome.declineOrder = Generated.welcomeDeclineOrder ∧ Generated.welcomeProcessDedupsByRumorId = true ∧
+    Generated.acceptRefusesAccepted = true ∧ Generated.welcomeReplacesOldGroup = true ∧
     Generated.welcomeProcessChecksHeldGroup = false := by decide
 
 end MdkVerif.Props.C16
